@@ -173,9 +173,13 @@ func sigDiff(a, b *bundle.Signatures) string {
 	return ""
 }
 
+var nWrite int
+
 func write(r *mon.Run, id string, b *bundle.Bundle) ([]byte, error, bool) {
 	var buf bytes.Buffer
 	var err error
+	nWrite++
+	gen.FailedCallFirst(nWrite, func(w io.Writer) { b.WriteTo(w) })
 	p, pv := r.Call(id, nil, func() { _, err = b.WriteTo(&buf) })
 	if p {
 		return nil, fmt.Errorf("panic: %v", pv), true
